@@ -50,8 +50,8 @@ type ServerCfg struct {
 	Sibling string `json:"sibling,omitempty"`
 	// SameAddr: every connection's RemoteAddr() prints the same text (peers on a
 	// unix-domain socket, an in-memory listener, a local proxy)
-	SameAddr bool `json:"same_addr,omitempty"`
-	TLS     string            `json:"tls,omitempty"` // "" | empty | certs
+	SameAddr bool   `json:"same_addr,omitempty"`
+	TLS      string `json:"tls,omitempty"` // "" | empty | certs
 	// AuthFirst: an earlier SessionAuthStrategy option ("accept-all": a strategy
 	// that lets everybody in) which the option configured by Auth follows and
 	// - last option wins - replaces
